@@ -159,6 +159,7 @@ func (m *SetMon[T]) Check() {
 	}
 	vs := m.S.Values()
 	m.checkValues(vs)
+	ruin(vs)
 	c.Count("obs:Values", 1)
 	c.State(core.Mix(core.HashString(m.Kind), hashVals(m.Model)))
 }
@@ -218,7 +219,7 @@ func (m *SetMon[T]) Step() {
 	case 2:
 		m.ContainsList(m.args(true))
 	default:
-		if m.c.R.Chance(1, 3) {
+		if m.c.R.Chance(1, 3) && len(m.D.Alpha) < 1000 { // (a Clear every ~75 calls would keep a big set small for ever)
 			m.Clear()
 		} else {
 			m.ContainsList(nil)
@@ -253,6 +254,22 @@ func runSetHistory[T comparable](c *core.Ctx, d *Dom[T], kind int) {
 	}
 	for s := 0; s < steps; s++ {
 		m.Step()
+	}
+	if len(d.Alpha) >= 1000 {
+		// drain through a quarter and an eighth of the peak with variadic Removes
+		// of present members (policies that fire in the middle of one call)
+		c.SetGapMax(12)
+		for m.n() > len(d.Alpha)/20 {
+			k := []int{2, 3, 17, 17, 40}[c.R.Intn(5)]
+			vs := make([]T, 0, k)
+			for i := 0; i < k && i < m.n(); i++ {
+				vs = append(vs, m.Model[c.R.Intn(m.n())])
+			}
+			m.Remove(vs...)
+		}
+		c.ObserveNow()
+		m.Check()
+		c.Count("obs:big-set-drained-by-variadic-removes", 1)
 	}
 	// focus bursts with long observation gaps: membership questions, removals
 	// and re-additions aimed at a value and its neighbours in alphabet (= key)
@@ -289,9 +306,43 @@ func runSetHistory[T comparable](c *core.Ctx, d *Dom[T], kind int) {
 	c.Nontrivial()
 }
 
+// runManyClears: tens of thousands of Clear calls on one set (epoch counters
+// and generation stamps narrower than the machine word wrap around).
+func runManyClears(c *core.Ctx, kind int) {
+	d := IntDom(6)
+	m := newSetMon(c, d, kind)
+	x := d.Alpha[1]
+	m.Add(x)
+	c.Begin(m.Name, "Clear x 65540, looking at the set around the 2^8 and 2^16 marks")
+	y := d.Alpha[2]
+	m.Model, m.Seen = nil, nil
+	for i := 1; i <= 65540; i++ {
+		m.S.Clear()
+		switch i {
+		case 255, 256, 257, 65535, 65536, 65537:
+			m.Check() // x (added i Clears ago) and y are not members, Size is 0
+		}
+		if i%3 == 0 {
+			m.S.Add(y)
+		}
+	}
+	m.S.Clear()
+	m.Check()
+	m.Add(x) // and x can be added again
+	m.Add(y, x)
+	m.Remove(x)
+	c.Count("obs:66000-clears", 1)
+	c.Nontrivial()
+}
+
 func runC04(c *core.Ctx) {
 	i := c.Index
 	c.SetGaps(i%2 == 1)
+	if i%1009 >= 500 && i%1009 < 503 {
+		c.SetGaps(false)
+		runManyClears(c, i%1009-500)
+		return
+	}
 	switch {
 	case i%5 == 4:
 		runSetHistory(c, StrDom(c.R.Range(3, 14)), i)
